@@ -45,7 +45,17 @@ def run_case(case, tier):
     from trie import HexaryTrie
     backing = C.FailingDict()
     t = HexaryTrie(backing, prune=case["prune"])
-    ops = list(case["writes"])
+    # the writes, with root_node read half-way (an implementation that memoises it must notice every later change of the
+    # root, whichever way it happens) and the second half applied directly or as one squash_changes block
+    ws = list(case["writes"])
+    h = len(ws) // 2
+    rng0 = random.Random(case["seed"] + 1)
+    ops = ws[:h] + [("root_node",)]
+    if ws[h:] and rng0.random() < 0.5:
+        ops.append(("batch", ws[h:], None))
+    else:
+        ops += ws[h:]
+    nw_ops = len(ops)
     paths = case["paths"]
     for p in paths:
         ops.append(("traverse", p))
@@ -59,7 +69,7 @@ def run_case(case, tier):
     for pre, seg in splits:
         ops.append(("traverse_from", pre, seg))
     outs = [HX.step(t, op, backing) for op in ops]
-    nw = len(case["writes"])
+    nw = nw_ops
     res = dict((tuple(p), o) for p, o in zip(paths, outs[nw:nw + len(paths)]))
     bad = None
     m = case["m"]
@@ -152,7 +162,7 @@ def check(tier, seed):
         R.count("partial", stats["partial"])
         R.count("blank", stats["blank"])
         if bad:
-            R.spec_violations.append((bad, {"prune": case["prune"], "ops": case["writes"], "paths": case["paths"]}))
+            R.spec_violations.append((bad, {"prune": case["prune"], "ops": case["writes"], "paths": case["paths"], "seed": case["seed"]}))
         kinds = HX.classify_trie(backing, t.root_hash)
         if kinds["ext"] and stats["partial"] and stats["blank"] and kinds["branch"]:
             R.nontrivial.add(C.case_key(case["writes"]))
@@ -175,7 +185,7 @@ def check(tier, seed):
     for m in ms[:3]:
         c = cases[idx[m]]
         R.spec_violations.append(("traverse does not describe the canonical node at some path (compared with the Yellow-Paper tree of "
-                                  "the contents, evaluated in Coq)", {"prune": c["prune"], "ops": c["writes"], "paths": c["paths"]}))
+                                  "the contents, evaluated in Coq)", {"prune": c["prune"], "ops": c["writes"], "paths": c["paths"], "seed": c["seed"]}))
     for m in mism[:3]:
         R.corr_mismatches.append(("impl≠model at traverse / traverse_from / root_node", {"prune": runs[m][0], "ops": runs[m][1]},
                                   {"model": C.eval_show("C08", "cases", HX.IMPORTS, "hexary_run", "bool * list hop", terms[m])[-2000:]}))
@@ -186,7 +196,7 @@ def check(tier, seed):
             c = gen_case(r2, "thorough")
             bad = run_case(c, "thorough")[2]
             if bad:
-                return bad, {"prune": c["prune"], "ops": c["writes"], "paths": c["paths"]}
+                return bad, {"prune": c["prune"], "ops": c["writes"], "paths": c["paths"], "seed": c["seed"]}
         return None
 
     return R.finish(RULE, search=search,
@@ -199,7 +209,7 @@ def replay(payload):
     m = {}
     for w in writes:
         HX.apply_model(m, w)
-    case = {"prune": c["prune"], "writes": writes, "m": m, "paths": c["paths"], "seed": 1}
+    case = {"prune": c["prune"], "writes": writes, "m": m, "paths": c["paths"], "seed": c.get("seed", 1)}
     ops, outs, bad, stats, spec_expected, _ = run_case(case, "thorough")
     if not bad and all(e is not None for e in spec_expected):
         mp = clist([f"({cb(k)}, {cb(v)})" for k, v in sorted(m.items())])
